@@ -295,3 +295,14 @@ def replay(ctx: Ctx, payload) -> Tuple[bool, str]:
         from . import c13
         return c13.replay(ctx, payload)
     return True, "unknown kind"
+
+
+# ------------------------------------------------------------------------------------------------
+# theorem-only parts: end-to-end composition with the Loader model, and the refinement link between the thread
+# protocols (PF / PM) and the sequential abstraction `buffered` used above
+from . import _compose, e2en_parts, refine_parts  # noqa: E402
+
+_compose.extend(globals(), [
+    _compose.theorem_part("e2en", e2en_parts.THEOREMS_BY_PROP.get("C02", []), e2en_parts.LEAN_MODULES),
+    _compose.theorem_part("refine", refine_parts.THEOREMS_BY_PROP.get("C02", []), refine_parts.LEAN_MODULES),
+])
